@@ -9,6 +9,7 @@ use std::sync::{Arc, TryLockError};
 
 pub fn swarm() -> Swarm {
     Swarm {
+        alloc_modes: true,
         stalls: true,
         stall_max_ns: 2_000_000,
         est_len: 4000,
